@@ -1,4 +1,5 @@
 import CollectionsC.Proofs.PSListHistory
+import CollectionsC.Proofs.PSListIter
 import CollectionsC.Properties.C04
 /-! # C04 (pointer level, singly linked) — the raw `next` links of CC_SList
 
@@ -28,10 +29,14 @@ of the nodes one by one on every run.
 
 `history_refines`/`history_refines_ideal` quantify over `List POp` (16 operations incl. `filter_mut` and the exchange of roles).
 Elsewhere at link level: `cc_slist_sort` in `C18PList.lean`, the derived-list builders in `C15PList.lean`.
-**Not at pointer level** (they keep their sequence-level models and theorems, `C07List`): the iterator and the zip
-iterator's `add`/`remove`/`replace` of the singly linked list (the cursor carries its own `prev`); after one of these the
-driver rebuilds the pointer-level state from the sequence-level one and both sides renumber their nodes (links are still
-compared, node identity across that call is not). -/
+The iterator (`CC_SListIter`) and the zip iterator (`CC_SListZipIter`) are modelled with their C fields as node ids
+(`PIter`: `index/current/prev/next`, `PZip`); `SItRel` says where the fields point (`next` at the first node not yet passed,
+`current` at the node last passed or NULL after a removal, `prev` at the predecessor `unlinkn` needs).  `iter_next_links`,
+`iter_add_links`, `iter_remove_links`, `iter_replace_links` and the `zip_*_links` twins: from related states every call keeps the
+list(s) represented (well-formed, disjoint), changes exactly the node(s) the API names (one fresh node per list / exactly the
+current node released / one `data` field) and leaves the fields related again — so the relation, well-formedness and "no field
+names a released node" hold along every iterator program.  The driver runs these models (no resynchronisation anywhere), so L3
+compares node identity across every operation of the singly linked list. -/
 namespace CC.Properties.C04PSList
 open CC CC.Chain CC.PSList
 open CC.PList (Heap St Hdr Cell idsOf dataOf POp PS absPair lastOr)
@@ -125,6 +130,100 @@ theorem filter_mut_links (pr : Nat → Bool) (s : St) (l : Hdr) (cs : List Cell)
     SRepr (filterMut pr s l m).2.1.heap (filterMut pr s l m).2.2.1 (cs.filter (fun c => pr c.2)) ∧
     (filterMut pr s l m).2.2.2 = Mem.freeN l.triple (cs.length - (cs.filter (fun c => pr c.2)).length) m :=
   ⟨((filterMut_spec pr s l cs m r hb).2 hne).2.2.repr, ((filterMut_spec pr s l cs m r hb).2 hne).2.1⟩
+
+/-! ## the iterator and the zip iterator on the raw links -/
+open CC.PSList (PIter PZip SItRel)
+
+theorem iter_init_links {h : Heap} {l : Hdr} {cs : List Cell} (r : SRepr h l cs) : SItRel cs [] cs (PSList.piterInit l) :=
+  PSList.piterInit_rel r
+
+/-- `cc_slist_iter_next`: end of list — nothing changes; otherwise the element of the node `next` points at is yielded and the
+fields advance (`prev` follows `current` only when there is one) -/
+theorem iter_next_links {h : Heap} {l : Hdr} {cs pre rest : List Cell} {it : PIter} (r : SRepr h l cs) (k : SItRel cs pre rest it) :
+    (rest = [] → PSList.piterNext h it = (.iterEnd, none, it)) ∧
+    (∀ a rest', rest = a :: rest' → (PSList.piterNext h it).1 = .ok ∧ (PSList.piterNext h it).2.1 = some a.2 ∧
+      SItRel cs (pre ++ [a]) rest' (PSList.piterNext h it).2.2) := PSList.piterNext_links r k
+
+/-- `cc_slist_iter_add` (granted): exactly one fresh node directly behind `current`; the list stays well-formed, its content
+is the old one with `x` inserted behind the current element, the new node is `current`, the old one `prev` -/
+theorem iter_add_links {s : St} {l : Hdr} {cs pre' rest : List Cell} {c : Cell} {it : PIter} (x : Nat) (m : Mem)
+    (r : SRepr s.heap l cs) (hb : ∀ y, y ∈ idsOf cs → y < s.fresh) (k : SItRel cs (pre' ++ [c]) rest it) (hc : it.current = some c.1)
+    (ha : (m.allocT l.triple).1 = true) :
+    SRepr (PSList.piterAdd s l it x m).2.1.heap (PSList.piterAdd s l it x m).2.2.1 (pre' ++ c :: (s.fresh, x) :: rest) ∧
+    fwd (PSList.piterAdd s l it x m).2.1.heap (PSList.piterAdd s l it x m).2.2.1 = dataOf pre' ++ c.2 :: x :: dataOf rest ∧
+    SItRel (pre' ++ c :: (s.fresh, x) :: rest) (pre' ++ [c] ++ [(s.fresh, x)]) rest (PSList.piterAdd s l it x m).2.2.2.1 ∧
+    (PSList.piterAdd s l it x m).2.2.2.2 = (m.allocT l.triple).2 := by
+  obtain ⟨_, g2, gk, gr⟩ := (PSList.piterAdd_links x m r hb k hc).2 ha
+  exact ⟨gk.repr, by rw [gk.repr.fwd]; simp, gr, g2⟩
+
+/-- `cc_slist_iter_remove` with a current element: exactly that node is released (unlinked behind its true predecessor) -/
+theorem iter_remove_links {s : St} {l : Hdr} {cs pre' rest : List Cell} {c : Cell} {it : PIter} (m : Mem)
+    (r : SRepr s.heap l cs) (hb : ∀ y, y ∈ idsOf cs → y < s.fresh) (k : SItRel cs (pre' ++ [c]) rest it) (hc : it.current = some c.1) :
+    (PSList.piterRemove s l it m).2.1 = some c.2 ∧
+    SRepr (PSList.piterRemove s l it m).2.2.1.heap (PSList.piterRemove s l it m).2.2.2.1 (pre' ++ rest) ∧
+    fwd (PSList.piterRemove s l it m).2.2.1.heap (PSList.piterRemove s l it m).2.2.2.1 = dataOf pre' ++ dataOf rest ∧
+    SItRel (pre' ++ rest) pre' rest (PSList.piterRemove s l it m).2.2.2.2.1 ∧
+    (PSList.piterRemove s l it m).2.2.2.2.2 = m.freeT l.triple := by
+  obtain ⟨_, u1, u2, uk, ur⟩ := PSList.piterRemove_links m r hb k hc
+  exact ⟨u1, uk.repr, by rw [uk.repr.fwd]; simp, ur, u2⟩
+
+/-- `cc_slist_iter_replace` with a current element: one `data` field -/
+theorem iter_replace_links {s : St} {l : Hdr} {cs pre' rest : List Cell} {c : Cell} {it : PIter} (x : Nat)
+    (r : SRepr s.heap l cs) (k : SItRel cs (pre' ++ [c]) rest it) (hc : it.current = some c.1) :
+    (PSList.piterReplace s it x).2.1 = some c.2 ∧
+    SRepr (PSList.piterReplace s it x).2.2.heap l (pre' ++ (c.1, x) :: rest) ∧
+    SItRel (pre' ++ (c.1, x) :: rest) (pre' ++ [(c.1, x)]) rest it :=
+  ⟨(PSList.piterReplace_links x r k hc).2.1, (PSList.piterReplace_links x r k hc).2.2.1, (PSList.piterReplace_links x r k hc).2.2.2.1⟩
+
+/-- everything `cc_slist_iter_add` / `cc_slist_iter_remove` guarantee (`SKeeps`: representation, triple, serial counter, bound,
+frame, released nodes) — what is needed to continue with any other operation afterwards -/
+theorem iter_add_keeps {s : St} {l : Hdr} {cs pre' rest : List Cell} {c : Cell} {it : PIter} (x : Nat) (m : Mem)
+    (r : SRepr s.heap l cs) (hb : ∀ y, y ∈ idsOf cs → y < s.fresh) (k : SItRel cs (pre' ++ [c]) rest it) (hc : it.current = some c.1)
+    (ha : (m.allocT l.triple).1 = true) :
+    PSList.SKeeps s (PSList.piterAdd s l it x m).2.1 l (PSList.piterAdd s l it x m).2.2.1 cs (pre' ++ c :: (s.fresh, x) :: rest) :=
+  ((PSList.piterAdd_links x m r hb k hc).2 ha).2.2.1
+
+theorem iter_remove_keeps {s : St} {l : Hdr} {cs pre' rest : List Cell} {c : Cell} {it : PIter} (m : Mem)
+    (r : SRepr s.heap l cs) (hb : ∀ y, y ∈ idsOf cs → y < s.fresh) (k : SItRel cs (pre' ++ [c]) rest it) (hc : it.current = some c.1) :
+    PSList.SKeeps s (PSList.piterRemove s l it m).2.2.1 l (PSList.piterRemove s l it m).2.2.2.1 cs (pre' ++ rest) :=
+  (PSList.piterRemove_links m r hb k hc).2.2.2.1
+
+/-- `cc_slist_zip_iter_add` on two **distinct** lists (hypothesis `SRepr2`: node sets disjoint — over the same list both
+`current->next = new` hit one node, a node is lost and `size` over-counted: known finding `KF-list-zip-same-list`, witness
+`corpus/slist/defect_zip_same_list_add.ops`), both allocations granted: one fresh node per list directly behind its `current`; both lists
+well-formed and disjoint; fields related again.  (Refusals: `PSList.pzipAdd_links`, first two conjuncts.) -/
+theorem zip_add_links {s : St} {l1 l2 : Hdr} {cs1 cs2 p1 t1 p2 t2 : List Cell} {c1 c2 : Cell} {z : PZip} (x1 x2 : Nat) (m : Mem)
+    (r : PSList.SRepr2 s.heap l1 l2 cs1 cs2) (hb1 : ∀ y, y ∈ idsOf cs1 → y < s.fresh) (hb2 : ∀ y, y ∈ idsOf cs2 → y < s.fresh)
+    (k1 : SItRel cs1 (p1 ++ [c1]) t1 z.it1) (k2 : SItRel cs2 (p2 ++ [c2]) t2 z.it2) (h1 : z.cur1 = some c1.1) (h2 : z.cur2 = some c2.1)
+    (a1 : (m.allocT l1.triple).1 = true) (a2 : ((m.allocT l1.triple).2.allocT l2.triple).1 = true) :
+    PSList.SRepr2 (PSList.pzipAdd s l1 l2 z x1 x2 m).2.1.heap (PSList.pzipAdd s l1 l2 z x1 x2 m).2.2.1 (PSList.pzipAdd s l1 l2 z x1 x2 m).2.2.2.1
+      (p1 ++ c1 :: (s.fresh, x1) :: t1) (p2 ++ c2 :: (s.fresh + 1, x2) :: t2) ∧
+    SItRel (p1 ++ c1 :: (s.fresh, x1) :: t1) (p1 ++ [c1] ++ [(s.fresh, x1)]) t1 (PSList.pzipAdd s l1 l2 z x1 x2 m).2.2.2.2.1.it1 ∧
+    SItRel (p2 ++ c2 :: (s.fresh + 1, x2) :: t2) (p2 ++ [c2] ++ [(s.fresh + 1, x2)]) t2 (PSList.pzipAdd s l1 l2 z x1 x2 m).2.2.2.2.1.it2 := by
+  obtain ⟨_, _, g3, _, _, _, _, g8, g9⟩ := (PSList.pzipAdd_links x1 x2 m r hb1 hb2 k1 k2 h1 h2).2.2 a1 a2
+  exact ⟨g3, g8, g9⟩
+
+/-- `cc_slist_zip_iter_remove` on two **distinct** lists (`SRepr2`; over the same list the node is unlinked and freed twice:
+`KF-list-zip-same-list`, witness `corpus/slist/defect_zip_same_list_remove.ops`) with current elements: exactly the two current
+nodes are released, each through its own list's triple -/
+theorem zip_remove_links {s : St} {l1 l2 : Hdr} {cs1 cs2 p1 t1 p2 t2 : List Cell} {c1 c2 : Cell} {z : PZip} (m : Mem)
+    (r : PSList.SRepr2 s.heap l1 l2 cs1 cs2) (hb1 : ∀ y, y ∈ idsOf cs1 → y < s.fresh) (hb2 : ∀ y, y ∈ idsOf cs2 → y < s.fresh)
+    (k1 : SItRel cs1 (p1 ++ [c1]) t1 z.it1) (k2 : SItRel cs2 (p2 ++ [c2]) t2 z.it2) (h1 : z.cur1 = some c1.1) (h2 : z.cur2 = some c2.1) :
+    (PSList.pzipRemove s l1 l2 z m).2.1 = some (c1.2, c2.2) ∧
+    (PSList.pzipRemove s l1 l2 z m).2.2.2.2.2.2 = (m.freeT l1.triple).freeT l2.triple ∧
+    PSList.SRepr2 (PSList.pzipRemove s l1 l2 z m).2.2.1.heap (PSList.pzipRemove s l1 l2 z m).2.2.2.1 (PSList.pzipRemove s l1 l2 z m).2.2.2.2.1
+      (p1 ++ t1) (p2 ++ t2) ∧
+    SItRel (p1 ++ t1) p1 t1 (PSList.pzipRemove s l1 l2 z m).2.2.2.2.2.1.it1 ∧ SItRel (p2 ++ t2) p2 t2 (PSList.pzipRemove s l1 l2 z m).2.2.2.2.2.1.it2 := by
+  obtain ⟨_, g2, g3, g4, _, g6, g7⟩ := PSList.pzipRemove_links m r hb1 hb2 k1 k2 h1 h2
+  exact ⟨g2, g3, g4, g6, g7⟩
+
+/-- `cc_slist_zip_iter_replace` with current elements: one `data` field per list -/
+theorem zip_replace_links {s : St} {l1 l2 : Hdr} {cs1 cs2 p1 t1 p2 t2 : List Cell} {c1 c2 : Cell} {z : PZip} (x1 x2 : Nat)
+    (r : PSList.SRepr2 s.heap l1 l2 cs1 cs2)
+    (k1 : SItRel cs1 (p1 ++ [c1]) t1 z.it1) (k2 : SItRel cs2 (p2 ++ [c2]) t2 z.it2) (h1 : z.cur1 = some c1.1) (h2 : z.cur2 = some c2.1) :
+    (PSList.pzipReplace s z x1 x2).2.1 = some (c1.2, c2.2) ∧
+    PSList.SRepr2 (PSList.pzipReplace s z x1 x2).2.2.heap l1 l2 (p1 ++ (c1.1, x1) :: t1) (p2 ++ (c2.1, x2) :: t2) :=
+  ⟨(PSList.pzipReplace_links x1 x2 r k1 k2 h1 h2).2.1, (PSList.pzipReplace_links x1 x2 r k1 k2 h1 h2).2.2.1⟩
 
 /-! ## Non-vacuity: a history with insertion in the middle, reversal, bulk copy, splice and removal, read along the links -/
 example :
